@@ -236,11 +236,12 @@ def cache_job(a):
                 x = base + r.choice([0, 0.004, 0.04, 0.4, -0.004, 1e-9] if not eqtypes else [0, 0, 0, 0.004])
                 if eqtypes and x == base and r.random() < .5: x = int(x) if r.random() < .7 or base != 1.0 else True
                 if r.random() < .3 and (kmk != 'raw' or mod == 'safe'): x = [x, r.choice([1, 'a', 2.55])] if r.random() < .5 else {'q': x}
-                form = r.choice(['pos', 'kw', 'default', 'extra'] if not eqtypes else ['pos', 'pos', 'pos', 'default'])
+                form = r.choice(['pos', 'kw', 'default', 'extra', 'spelled'] if not eqtypes else ['pos', 'pos', 'pos', 'default'])
                 calls.append((form, x))
+                if form == 'default' and r.random() < .5: calls.append(('spelled', x))     # the same call with the default written out
             keys, viol = [], []
             for form, x in calls:
-                args, kw = {'pos': ((x, 0.5), {}), 'kw': ((), {'x': x, 'y': 0.5}), 'default': ((x,), {}), 'extra': ((x, 0.5, 1.26), {'z': 2.345})}[form]
+                args, kw = {'pos': ((x, 0.5), {}), 'kw': ((), {'x': x, 'y': 0.5}), 'default': ((x,), {}), 'spelled': ((x, 0.25), {}), 'extra': ((x, 0.5, 1.26), {'z': 2.345})}[form]
                 n0 = len(SEEN)
                 if kmk == 'raw' and isinstance(x, (list, dict)):
                     # safe decorator, raw keymap, unhashable argument: the key is unusable and the wrapper must fall back to
@@ -280,10 +281,10 @@ def cache_job(a):
                     def orr(v_): return oracle(v_, tol, deep) if tol is not None else v_
                     passed_y = len(args) > 1 or 'y' in kw
                     bound = dict(x=orr(args[0] if args else kw['x']),
-                                 y=orr(args[1] if len(args) > 1 else kw['y']) if passed_y else ('<default>', 0.25),
+                                 y=orr(args[1] if len(args) > 1 else kw['y']) if passed_y else 0.25,      # (a default left implicit enters the key as it is)
                                  rest=tuple(orr(e) for e in args[2:]), z=orr(kw['z']) if 'z' in kw else '<none>')
                     ob = canon(bound)
-                    keys.append((repr(kk), ob, (args, kw)))
+                    keys.append((repr(kk), ob, (args, kw), form, x))
                 except Exception as e:
                     viol.append(dict(prop='C12', sig=dict(kind='valid-call-fails', dec='%s.%s' % (mod, nm), exc=type(e).__name__, deep=deep),
                                      msg='%s.%s(tol=%r, deep=%r, %s) raised %s: %s on the valid call %r %r' % (mod, nm, tol, deep, kmk, type(e).__name__, e, args, kw)))
@@ -295,6 +296,14 @@ def cache_job(a):
                                          msg='%s.%s(tol=%r, deep=%r, %s): calls %r and %r %s but their arguments round to %s values' % (
                                              mod, nm, tol, deep, kmk, keys[i][2], keys[j2][2], 'share a key' if same_key else 'get different keys',
                                              'different' if not same_round else 'the same')))
+            # C09 under a tolerance: the default written out vs left implicit is one binding, hence one key
+            for i in range(len(keys)):
+                for j2 in range(len(keys)):
+                    if keys[i][3] == 'default' and keys[j2][3] == 'spelled' and keys[i][4] is keys[j2][4] and keys[i][0] != keys[j2][0]:
+                        viol.append(dict(prop='C09', sig=dict(kind='default-spelled-vs-omitted-under-tol', dec='%s.%s' % (mod, nm), tol=tol),
+                                         msg='%s.%s(tol=%r, deep=%r, %s): target(%r) and target(%r, 0.25) bind the same values (y=0.25 is the default) but get keys %.120s and %.120s' % (
+                                             mod, nm, tol, deep, kmk, keys[i][4], keys[i][4], keys[i][0], keys[j2][0])))
+                        break
             out.append(dict(cfg=dict(dec='%s.%s' % (mod, nm), tol=tol, deep=deep, keymap=kmk, calls=repr(calls)[:300]), viol=viol, n=len(calls)))
         except Exception:
             out.append(dict(err=traceback.format_exc()[-800:]))
@@ -345,9 +354,9 @@ def explore(prop, tier, seedoff=0):
             tags['cache-config'] += 1; tags['cache-calls'] += o['n']
             for v in o['viol']:
                 if v['prop'] == prop: viols.append(dict(v, i=0, cfg=o['cfg'], ops=[]))
-    if prop == 'C18':
-        divs = []        # C18 uses only the decorator part of this suite
-        viols = [v for v in viols if v['prop'] == 'C18']
+    if prop in ('C18', 'C09'):
+        divs = []        # C18 and C09 use only the decorator part of this suite
+        viols = [v for v in viols if v['prop'] == prop]
     else:
         viols = [v for v in viols if v['prop'] == 'C12']
     return dict(suite='round', traces=tags['struct'] + tags['cache-config'], evaluations=tags['scalar'] + tags['struct'] + tags['cache-calls'],
@@ -356,6 +365,23 @@ def explore(prop, tier, seedoff=0):
 
 
 def replay(prop, obj):
+    if (obj.get('signature') or {}).get('kind') == 'default-spelled-vs-omitted-under-tol':
+        # deterministic: one decorator configuration, the call with the default omitted and written out
+        import klepto, klepto.safe
+        from klepto.keymaps import stringmap, picklemap, hashmap, keymap
+        c = obj['case']
+        mod, nm = c['dec'].split('.')
+        D = getattr(klepto.safe if mod == 'safe' else klepto, nm)
+        km = {'string': stringmap, 'pickle': picklemap, 'md5': lambda: hashmap(algorithm='md5'), 'raw': keymap}[c['keymap']]()
+        kwd = dict(keymap=km, tol=c['tol'], deep=c['deep'])
+        if nm not in ('no_cache', 'inf_cache'): kwd['maxsize'] = 50
+        f = D(**kwd)(target)
+        k1, k2 = f.key(1.234), f.key(1.234, 0.25)
+        viol = []
+        if repr(k1) != repr(k2):
+            viol.append(dict(prop='C09', sig=dict(kind='default-spelled-vs-omitted-under-tol', dec=c['dec'], tol=c['tol']),
+                             msg='%s(tol=%r): target(1.234) and target(1.234, 0.25) get keys %.100r and %.100r' % (c['dec'], c['tol'], k1, k2)))
+        return dict(violations=viol, divergence=None)
     raise NoVerdict('replays of suite round are re-generated from the seed: run ./check %s with VERIF_SEED=%s' % (prop, obj.get('seed')))
 
 
